@@ -210,6 +210,12 @@ func sameBatch(sent, got data.Points) bool {
 
 func (tr *Tracker) checkWrite(w *WriteRec) {
 	s := tr.s
+	if w.Refused != "" {
+		s.Probe("refused: " + w.Refused)
+		tr.markDirty() // a refused write must leave no trace: re-read and compare with the unchanged model
+	} else {
+		s.Probe("accepted writes")
+	}
 	what := fmt.Sprintf("write #%d %s from %s (%d points)", w.N, w.Subject, w.From, len(w.Pts))
 	if tr.CheckReplies {
 		if w.Reply != "" {
